@@ -295,6 +295,9 @@ func propC12(c *Ctx) {
 				if k%2 == 1 {
 					els = append(els, chainElem{typ: 40, body: g.bytes(3)})
 				}
+				if k%4 == 2 { // an unsupported, non-critical payload between this payload and a further one
+					els = append(els, chainElem{typ: uint8(g.pick(1, 5, 32, 49, 200, 255)), body: g.bytes(g.r.Intn(4))}, chainElem{typ: 40, body: g.bytes(2)})
+				}
 				in := encodeHeaderRef(g.header(), uint8(t), encodeChainRef(els))
 				c.c12Msg(s, in, false, "small-body", n+t*1000+l*50+k, &corr)
 			}
